@@ -27,6 +27,7 @@ type clipperBase struct {
 	currentLocMin      int
 	actives            *Active
 	sel                *Active
+	vs                 verifState
 }
 
 func newClipperBase() *clipperBase {
@@ -115,6 +116,7 @@ func (c *clipperBase) recursiveCheckOwners(outrec *OutRec, polypath *PolyPathBas
 			path1InsidePath2(outrec.pts, outrec.owner.pts) {
 			break
 		}
+		c.vs.count("owner_corrected")
 		outrec.owner = outrec.owner.owner
 	}
 
@@ -161,6 +163,7 @@ func (c *clipperBase) checkSplitOwner(outrec *OutRec, splits []int) bool {
 		}
 
 		outrec.owner = split
+		c.vs.count("split_owner")
 		return true
 	}
 	return false
@@ -233,6 +236,7 @@ func (c *clipperBase) cleanCollinear(outrec *OutRec) {
 	op2 := startOp
 
 	for {
+		c.vs.tick("cleanCollinear")
 		prevPt := op2.prev.pt
 		currPt := op2.pt
 		nextPt := op2.next.pt
@@ -242,6 +246,7 @@ func (c *clipperBase) cleanCollinear(outrec *OutRec) {
 			if op2 == outrec.pts {
 				outrec.pts = op2.prev
 			}
+			c.vs.opEvent("clean_drop", op2, 0, 0)
 			op2 = disposeOutPt(op2)
 			if !isValidClosedPath(op2) {
 				outrec.pts = nil
@@ -307,6 +312,7 @@ func (c *clipperBase) executeInternal(ct ClipType, fillRule FillRule) {
 	c.clipType = ct
 
 	c.reset()
+	c.vs.resetTicks()
 
 	y, ok := c.popScanline()
 	if !ok {
@@ -314,6 +320,7 @@ func (c *clipperBase) executeInternal(ct ClipType, fillRule FillRule) {
 	}
 
 	for c.succeeded {
+		c.vs.tick("executeInternal")
 		c.insertLocalMinimaIntoAEL(y)
 
 		for {
@@ -359,6 +366,7 @@ func (c *clipperBase) doTopOfScanbeam(y int64) {
 	c.sel = nil
 	ae := c.actives
 	for ae != nil {
+		c.vs.tick("doTopOfScanbeam")
 		if ae.top.Y == y {
 			ae.curX = ae.top.X
 			if isMaximaActive(ae) {
@@ -417,6 +425,7 @@ func (c *clipperBase) doMaxima(ae *Active) *Active {
 
 	//cur := nextE
 	for nextE != maxPair {
+		c.vs.tick("doMaxima")
 		c.intersectEdges(ae, nextE, ae.top)
 		c.swapPositionsInAEL(ae, nextE)
 		nextE = ae.nextInAEL
@@ -468,9 +477,11 @@ func (c *clipperBase) processIntersectList() {
 	})
 
 	for i := 0; i < len(c.intersectList); i++ {
+		c.vs.tick("processIntersectList")
 		if !edgesAdjacentInAEL(c.intersectList[i]) {
 			j := i + 1
 			for !edgesAdjacentInAEL(c.intersectList[j]) {
+				c.vs.tick("processIntersectList.scan")
 				j++
 			}
 			c.intersectList[i], c.intersectList[j] = c.intersectList[j], c.intersectList[i]
@@ -505,9 +516,11 @@ func (c *clipperBase) buildIntersectList(topY int64) bool {
 
 			left.jump = rEnd
 			for left != lEnd && right != rEnd {
+				c.vs.tick("buildIntersectList")
 				if right.curX < left.curX {
 					tm := right.prevInSEL
 					for {
+						c.vs.tick("buildIntersectList.nodes")
 						c.addNewIntersectNode(tm, right, topY)
 						if tm == left {
 							break
@@ -600,6 +613,7 @@ func (c *clipperBase) doSplitOp(outrec *OutRec, splitOp *OutPt) {
 	absArea1 := math.Abs(area1)
 
 	if absArea1 < 2 {
+		c.vs.opEvent("split_drop_small", splitOp, area1, 0)
 		outrec.pts = nil
 		return
 	}
@@ -622,9 +636,11 @@ func (c *clipperBase) doSplitOp(outrec *OutRec, splitOp *OutPt) {
 	}
 
 	if !(absArea2 > 1) || !(absArea2 > absArea1 && (area2 > 0) != (area1 > 0)) {
+		c.vs.opEvent("split_discard", splitOp, area1, area2)
 		return
 	}
 
+	c.vs.opEvent("split_keep", splitOp, area1, area2)
 	newOutRec := c.newOutRec()
 	newOutRec.owner = outrec.owner
 	splitOp.outrec = newOutRec
@@ -787,6 +803,7 @@ func (c *clipperBase) updateHorzSegment(hs *HorzSegment) bool {
 }
 
 func (c *clipperBase) doHorizontal(horz *Active) {
+	c.vs.count("horz")
 	horzIsOpen := isOpen(horz)
 	Y := horz.bot.Y
 
@@ -812,6 +829,7 @@ func (c *clipperBase) doHorizontal(horz *Active) {
 		}
 
 		for ae != nil {
+			c.vs.tick("doHorizontal")
 			if ae.vertexTop == vertexMax {
 				if isHotEdge(horz) && isJoined(ae) {
 					c.split(ae, ae.top)
@@ -952,6 +970,7 @@ func (c *clipperBase) popHorz() (*Active, bool) {
 
 func (c *clipperBase) processHorzJoins() {
 	for _, j := range c.horzJoinList {
+		c.vs.count("horzjoin")
 		or1 := getRealOutRec(j.op1.outrec)
 		or2 := getRealOutRec(j.op2.outrec)
 
@@ -1355,6 +1374,7 @@ func (c *clipperBase) insertLeftEdge(ae *Active) {
 func (c *clipperBase) insertLocalMinimaIntoAEL(botY int64) {
 	for c.hasLocMinAtY(botY) {
 		locMin := c.popLocalMinima()
+		c.vs.count("locmin")
 
 		var leftBound *Active
 		if (locMin.Vertex.flags & OpenStart) != None {
@@ -1502,6 +1522,10 @@ func (c *clipperBase) checkJoinRight(e *Active, pt Point64, checkCurrX bool) {
 	if !isCollinear(e.top, pt, next.top) {
 		return
 	}
+	if c.vs.skipJoin() {
+		return
+	}
+	c.vs.joinEvent("joinR", e, next, pt, checkCurrX)
 
 	if e.outrec.idx == next.outrec.idx {
 		c.addLocalMaxPoly(e, next, pt)
@@ -1539,6 +1563,10 @@ func (c *clipperBase) checkJoinLeft(e *Active, pt Point64, checkCurrX bool) {
 	if !isCollinear(e.top, pt, prev.top) {
 		return
 	}
+	if c.vs.skipJoin() {
+		return
+	}
+	c.vs.joinEvent("joinL", e, prev, pt, checkCurrX)
 
 	if e.outrec != nil && prev.outrec != nil && e.outrec.idx == prev.outrec.idx {
 		c.addLocalMaxPoly(prev, e, pt)
@@ -1618,6 +1646,7 @@ func (c *clipperBase) addLocalMaxPoly(ae1, ae2 *Active, pt Point64) *OutPt {
 		} else if isOpenEnd(ae2) {
 			swapFrontBackSides(ae2.outrec)
 		} else {
+			c.vs.count("locmax_fail")
 			c.succeeded = false
 			return nil
 		}
@@ -1658,6 +1687,7 @@ func (c *clipperBase) addLocalMaxPoly(ae1, ae2 *Active, pt Point64) *OutPt {
 }
 
 func (c *clipperBase) split(e *Active, currPt Point64) {
+	c.vs.count("split")
 	if e.joinWith == JoinRight {
 		e.joinWith = JoinNone
 		//if e.nextInAEL != nil {
@@ -1674,6 +1704,7 @@ func (c *clipperBase) split(e *Active, currPt Point64) {
 }
 
 func (c *clipperBase) joinOutrecPaths(ae1, ae2 *Active) {
+	c.vs.count("join_outrecs")
 	p1Start := ae1.outrec.pts
 	p2Start := ae2.outrec.pts
 	p1End := p1Start.next
@@ -1716,6 +1747,7 @@ func (c *clipperBase) joinOutrecPaths(ae1, ae2 *Active) {
 }
 
 func (c *clipperBase) intersectEdges(ae1, ae2 *Active, pt Point64) {
+	c.vs.count("intersect")
 	var resultOp *OutPt
 	if c.hasOpenPaths && (isOpen(ae1) || isOpen(ae2)) {
 		if isOpen(ae1) && isOpen(ae2) {
@@ -1917,6 +1949,7 @@ func (c *clipperBase) intersectEdges(ae1, ae2 *Active, pt Point64) {
 }
 
 func (c *clipperBase) startOpenPath(ae *Active, pt Point64) *OutPt {
+	c.vs.count("openstart")
 	outrec := c.newOutRec()
 	outrec.isOpen = true
 
